@@ -59,6 +59,9 @@ CHECKS["C17"] = ("statement's fraction cascade re-implemented + defining relatio
 CHECKS["C20"] = ("four-line trailing-mean specification vs smoothed outputs; bounded exhaustive enumeration of (L, window, rows, function, date?, value pattern) + Hypothesis with display transforms on the date dimension",
     "Exhaustive over L<=8, window in {None,-1,0..L+2}, 0..3 rows, both function spellings, categorical-date or not, six value patterns incl. NaN/0 (through smoothed_means of slices and strands) plus random surveys for smoothed column proportions / percentages / index / means and the smoothed scale mean, with row subtotals and hide / explicit order on the date dimension. One defect fixed (window 0).",
     "Subtotal columns on the date dimension are not periods and are not judged.", "6 C20")
+CHECKS["C08"] = ("order of a sorted run judged against the PUBLIC measure of an un-ordered reference run: fixed brackets, monotone body, NaN-last, subtotal group, fallback = anchored specification (Hypothesis)",
+    "Generated-input search over every sortable measure keyword (33), marginal keyword (7), strand keyword (13), label sort, both directions, fixed lists with repeats and stale ids, hide/prune, rows and columns, slices and strands; unresolvable keys (unknown element / insertion id, measure not in the response, undefined marginal) must give the anchored payload order of the C07 specification.",
+    "Population keywords only with fraction 1 and positive population; ties are free (non-strict monotonicity).", "6 C08")
 NOT_BUILT = {}
 
 def main():
